@@ -19,7 +19,7 @@ import os
 import re
 
 from translate import TranslateError, strip_comments, STATES, OPS, SIGNS, lc, matching
-from translate_ctrl import parse_methods, LOG_MACROS, indent, squash
+from translate_ctrl import parse_methods, LOG_MACROS, indent, squash, check_log_macro
 
 FIELDS = {  # rust field → (lean field, type)
     "address": ("addr", "u16"), "flip_style": ("style", "style"), "state": ("state", "state"),
@@ -246,10 +246,14 @@ class VT:
     def log_only(self, stmts):
         for s in stmts:
             if s[0] == "expr" and s[1][0] == "macro" and s[1][1] in LOG_MACROS:
+                check_log_macro(s[1][1], s[1][2], "virtual_sign_bus.rs")
                 continue
             if s[0] == "for" and self.log_only(s[3]):
                 continue
             if s[0] == "match" and all((b[0] == "block" and self.log_only(b[1])) or (b[0] == "expr" and b[1][0] == "macro" and b[1][1] in LOG_MACROS) for _, _, b in s[2]):
+                for _, _, b in s[2]:
+                    if b[0] == "expr":
+                        check_log_macro(b[1][1], b[1][2], "virtual_sign_bus.rs")
                 continue
             return False
         return True
